@@ -22,8 +22,15 @@ type Clause struct {
 }
 
 type LoopSpec struct {
+	Every      []*EverySpec // calls that every completed iteration must have made
 	Invariants []*Clause
 	Decreases  *Clause
+}
+
+type EverySpec struct {
+	Callee string
+	Ord    int
+	Text   string
 }
 
 type Tolerate struct {
@@ -40,6 +47,7 @@ type SpecParam struct {
 }
 
 type AssertSpec struct {
+	Used   bool
 	Callee string // anchor: before call#Ord of Callee
 	Ord    int
 	After  bool
@@ -698,6 +706,18 @@ func (cs *ContractSet) parseFile(file, relDir string) error {
 			if ls == nil {
 				ls = &LoopSpec{}
 				cur.Loops[k] = ls
+			}
+			if f[1] == "every-iteration" {
+				// loop <k> every-iteration call#<j> <callee>: an iteration that reaches the back edge made that call
+				var j int
+				if len(f) != 4 || !strings.HasPrefix(f[2], "call#") {
+					return fmt.Errorf("%s:%d: loop <k> every-iteration call#<j> <callee>", file, s.line)
+				}
+				if _, err := fmt.Sscanf(f[2], "call#%d", &j); err != nil {
+					return fmt.Errorf("%s:%d: %v", file, s.line, err)
+				}
+				ls.Every = append(ls.Every, &EverySpec{Callee: f[3], Ord: j, Text: "every iteration of loop " + f[0] + " calls " + f[3] + " (" + f[2] + ")"})
+				break
 			}
 			etext := strings.TrimSpace(s.rest[strings.Index(s.rest, f[1])+len(f[1]):])
 			c, err := parseExprClause(etext, file, s.line)
